@@ -26,7 +26,7 @@ NPTS = dict(point_pair=2, line=2, circle=3, plane=3, sphere=4)
 
 
 def jobs(tier, seed):
-    return [dict(name='rotors', jit=False, timeout=3000), dict(name='rotors_jit', jit=True, timeout=3000)]
+    return [dict(name='rotors', jit=False, timeout=1200 if tier == 'quick' else 3000), dict(name='rotors_jit', jit=True, timeout=1200 if tier == 'quick' else 3000)]
 
 
 def near(a, b, scale=1.0, tol=1e-6):
